@@ -4,6 +4,6 @@ cd /verif
 for d in neutral/*/; do
   id=$(basename $d)
   ( printf "%-10s %s\n" "$id" "$(./tools/mutrun.sh $PWD/$d/patch.diff | tail -1)" ) &
-  while [ $(jobs -r | wc -l) -ge 6 ]; do sleep 0.3; done
+  while [ $(jobs -r | wc -l) -ge ${PAR:-6} ]; do sleep 0.3; done
 done
 wait
